@@ -524,6 +524,16 @@ theorem kstep_cancelFound (st : St) (a : Nat) (ha : a ∈ listOf st (st.getW a).
 
 
 
+theorem g3_cancelDetached (st : St) (a : Nat) : G3 st (cancelDetached st a) := by
+  unfold cancelDetached
+  exact (g3_cancelNotify st a _).trans (g3_setW _ a _ rfl rfl)
+
+theorem g3_laterPre (st : St) (a : Nat) : G3 st (laterPre st a) := by
+  unfold laterPre
+  split
+  · exact g3_setW _ a _ rfl rfl
+  · exact G3.refl _
+
 theorem k_watchCancel (st : St) (a : Nat) : KStep st (watchCancel st a) := by
   unfold watchCancel
   split
@@ -535,7 +545,9 @@ theorem k_watchCancel (st : St) (a : Nat) : KStep st (watchCancel st a) := by
       · split
         · exact (g3_fail st _).kstep
         · split
-          · exact KStep.refl st
+          · split
+            · exact (g3_cancelDetached st a).kstep
+            · exact KStep.refl st
           · rename_i hc
             have : a ∈ listOf st (st.getW a).type := by simpa using hc
             exact kstep_cancelFound st a this
@@ -789,10 +801,12 @@ theorem k_laterLoopT (l : List Nat) : ∀ st : St, KStep st (laterLoopT st l).1 
     · split
       · exact (g3_fail _ _).kstep
       · split
-        · exact k_laterCb _ _
+        · exact (g3_free _ a).kstep.trans (ih _)
         · split
-          · exact (k_laterCb _ _).trans (g3_fail _ _).kstep
-          · exact ((k_laterCb _ _).trans (g3_free _ a).kstep).trans (ih _)
+          · exact (g3_laterPre st a).kstep.trans (k_laterCb _ a)
+          · split
+            · exact ((g3_laterPre st a).kstep.trans (k_laterCb _ a)).trans (g3_fail _ _).kstep
+            · exact (((g3_laterPre st a).kstep.trans (k_laterCb _ a)).trans (g3_free _ a).kstep).trans (ih _)
 
 
 theorem k_laterLoop (l : List Nat) (st : St) : KStep st (laterLoop st l) := k_laterLoopT l st
